@@ -222,7 +222,9 @@ Next ==
           \* transition-pair coverage: every transition followed by every event enabled after it.  Two
           \* histories that reach the same abstract state need not reach the same implementation state,
           \* so the successor's events are also replayed along THIS history.
-          /\ ((Emit /\ Emit2) =>
+          \* (only around the connect exchange - s.cx.on before or after the transition - where the model's state
+          \* is known to be coarser than the implementation's: will topic received / empty, AUTH pending)
+          /\ ((Emit /\ Emit2 /\ (s.cx.on \/ s2.cx.on)) =>
                  \A e2 \in Events(s2) :
                     PrintT("SCHED:" \o ToJson([cfg |-> s.cfg, prefix |-> Prefix, events |-> Append(hist', e2)])))
 
